@@ -93,6 +93,12 @@ def candidates(tree):
             for i, st in enumerate(L):
                 if isinstance(st, ast.If) and st.orelse and _terminates(st.body):
                     out.append(("guard-clause", (L, i), None))
+                if isinstance(st, ast.Assign) and len(st.targets) == 1 and isinstance(st.targets[0], ast.Name) and i + 1 < len(L) and not isinstance(L[i + 1], (ast.For, ast.While, ast.If, ast.With, ast.FunctionDef, ast.Match)):
+                    x_ = st.targets[0].id
+                    uses_next = [n for n in ast.walk(L[i + 1]) if isinstance(n, ast.Name) and n.id == x_ and isinstance(n.ctx, ast.Load)]
+                    nested_next = any(isinstance(n, (ast.Lambda, ast.GeneratorExp, ast.ListComp, ast.DictComp, ast.SetComp)) for n in ast.walk(L[i + 1]))
+                    if names_used.count(x_) == 2 and len(uses_next) == 1 and not nested_next and not isinstance(st.value, (ast.Lambda, ast.Await, ast.Yield)):
+                        out.append(("inline-temp", (L, i), None))
                 if isinstance(st, ast.Return) and isinstance(st.value, ast.IfExp):
                     out.append(("ifexp-to-if", (L, i), None))
                 if isinstance(st, ast.If) and len(st.body) == 1 and len(st.orelse) == 1 and isinstance(st.body[0], ast.Return) and isinstance(st.orelse[0], ast.Return) \
@@ -148,6 +154,17 @@ def apply(kind, node, extra, rng):
         node.keywords = [ast.keyword(arg=flds[i], value=a_) for i, a_ in enumerate(node.args) if i >= keep]
         node.args = node.args[:keep]
         return f"constructor {node.func.id}: arguments from position {keep} on passed by keyword (line {node.lineno})"
+    if kind == "inline-temp":
+        L, i = node
+        st = L[i]
+        x_ = st.targets[0].id
+
+        class _Sub(ast.NodeTransformer):
+            def visit_Name(self, n):
+                return st.value if n.id == x_ and isinstance(n.ctx, ast.Load) else n
+        L[i + 1] = _Sub().visit(L[i + 1])
+        del L[i]
+        return f"inline the temporary {x_} (line {st.lineno})"
     if kind == "guard-clause":
         L, i = node
         st = L[i]
